@@ -167,6 +167,9 @@ def build(spec, scratch=None, stop_at=None, tolerate_flagged=False):
                 kwargs.update(op['extra_kw'])
             item = getattr(lf, t['method'])(op['name'], **kwargs)
             b.items[(i, j)] = item
+            if op['t'] == 'channel' and op.get('data_from') is not None:
+                # the same dataset under another channel name (documented dataset_name setter)
+                item.dataset_name = b.items[(i, op['data_from'])].dataset_name
             for k, a in later:
                 attr = getattr(item, t['attrs'][k].py)
                 if 'v' in a:
@@ -192,6 +195,9 @@ def dataset_names(spec, lf_index):
     for j in order:
         op = spec['lfs'][lf_index]['ops'][j]
         if op['t'] != 'channel':
+            continue
+        if op.get('data_from') is not None:
+            names[j] = names[op['data_from']]
             continue
         if op.get('dsname') is not None:
             n = op['dsname']
@@ -219,7 +225,7 @@ def make_source(spec, b, scratch):
     for i, lf in enumerate(spec['lfs']):
         names = dataset_names(spec, i)
         for j, op in enumerate(lf['ops']):
-            if op['t'] == 'channel' and op.get('data') is not None:
+            if op['t'] == 'channel' and op.get('data') is not None and op.get('data_from') is None:
                 arrays[names[j]] = model.make_array(op['data'])
     keys = list(arrays)
     perm = opts.get('perm')
@@ -246,7 +252,8 @@ def make_source(spec, b, scratch):
             fields.append((k, a.dtype) if a.ndim == 1 else (k, a.dtype, a.shape[1:]))
         for e in extra:
             fields.append(('XTRA_' + str(e), np.dtype('<f4')))
-        st = np.zeros(n, dtype=fields)
+        # 'aligned': a structured dtype with padding between the fields, as np.dtype(..., align=True) gives
+        st = np.zeros(n, dtype=np.dtype(fields, align=bool(opts.get('aligned'))))
         for k in keys:
             st[k] = arrays[k][:n]
         b.supplied['struct'] = st
